@@ -1,29 +1,56 @@
 /-
   C19 — waiters are always woken; waits are never cyclic.
   Model: SalsaVerif/Model/SyncDG.lean (one Lean function per Rust function of
-  src/runtime/dependency_graph.rs, src/function/sync.rs and the block* functions of src/runtime.rs).
+  src/runtime/dependency_graph.rs, src/function/sync.rs and the block* functions of src/runtime.rs;
+  every assert / unwrap / expect / non-terminating loop of the Rust code is an explicit `none`).
 
   All theorems are by induction over ARBITRARY finite op sequences from `init` (any number of threads
-  and keys, no bounds).  `_partial` = proved for op sequences without ownership transfer
-  (`basicOps`: every constructor of `Op` except `transfer`; without a `transfer` no key ever is in the
-  `Transferred` state, so re-entrant claims do not occur either).
+  and keys, no bounds).  Two step relations:
+    `run`  / `Op`   atomic protocol steps (claim, peek, release, releaseSelf, transfer, wake);
+    `grun` / `GOp`  the operations of `DependencyGraph` at lock-hold granularity (a Rust `release`
+                    takes the graph mutex up to three times, so other threads' graph operations can
+                    interleave; the `_graph` theorems cover every such interleaving).
+  `runC` / `grunC` = the same with the client precondition `transferClientOk` checked at every transfer.
 
-  NOT YET PROVED (kept out of this file; see the full statements in the comments below)
-    (filled in at the end of this file's history — see the list at the bottom of this comment)
+  PROVED IN FULL (every `Op` / `GOp`, transfers and re-entrant claims included)
+    w2_acyclic, w2_acyclic_graph            no path from a thread to itself in `edges`
+    w1_blocked_iff, w1_blocked_iff_graph    edge ⇔ member of exactly one dependents list, exactly once
+    w5_exactly_once, w5_result_not_blocked_graph   result ⇒ not blocked; per-step thread life cycle
+    w4_forest, w4_forest_graph              transferred is a forest, tdeps its inverse (hypothesis: the
+                                            explicit client precondition `transferClientOk`; shown necessary)
+    w6_transfer_wakes_owner                 transfer_lock wakes ≤ 1 thread, with Completed, and it is the new
+                                            owner thread or a thread the new owner waits for
+    c19_depends_on_decides                  depends_on terminates and decides reachability
+    c19_cycle_reported, c19_block_only_if_acyclic, c19_claim_enabled   (keys owned by a thread)
+  PROVED FOR THE PROTOCOL WITHOUT `transfer` (`basicOps`; no key is ever `Transferred`)
+    w3_points_at_owner_partial, w6_no_lost_wakeup_partial, c19_release_enabled_partial,
+    c19_cycle_reported_partial (code-level form, holds in every state)
+
+  NOT YET PROVED (nothing below is claimed; the decidable forms of W1, W2, W4, W5 are evaluated by the
+  trace driver on every replayed state instead)
+    * w3_points_at_owner (full): `t ∈ qdeps k → edges t = resolvedOwner k` with transfers.  The right
+      statement is not settled: while a transferred key is re-claimed (`claimed_twice`) its sync entry
+      says `Thread(me)` but older dependents still point at the chain's resolved owner, so a
+      single-valued `resolvedOwner` is wrong; needs an invariant tying sync table, `transferred` chains
+      (with stale thread fields) and edges together.
+    * w6_no_lost_wakeup (full): `sync k` absent or stale-`Transferred` ⇒ `qdeps k = []`, and release of a
+      transfer target delivers the result to the dependents of every key transitively transferred to it.
+      Needs the W3 invariant above (that every dependent of a transferred key is reached by
+      `unblock_recursive` from the root), plus `is_transfer_target` being set on every key with
+      `tdeps ≠ []`.
+    * c19_cycle_reported for `Transferred` keys (answer `Cycle{inner}` / re-entrant `Claimed`, never an edge).
+    * enabledness (no assert fires, loops terminate) of release/transfer in the presence of transfers:
+      needs W4 + a key bound for the `transferred` walks (`resolveLoop`, `repointLoop`,
+      `unblockRecursive`, `findBlockedThread`, `updateTransferredEdges` fuel), and that the
+      `debug_assert`s of `transfer_lock` / `update_transferred_edges` hold — the latter are client
+      obligations of the engine, not consequences of the graph code.
+    * the non-atomicity of `release` at the protocol level (W3/W6 are stated for atomic `release`; the
+      graph-level theorems do cover the interleavings).
 -/
-import SalsaVerif.Proofs.SyncDGFull
+import SalsaVerif.Proofs.SyncDGReach
 
 namespace SalsaVerif.Props.C19
 open SalsaVerif.Model.SyncDG SalsaVerif.Proofs.SyncDG
-
-/-- Op sequences of the protocol without ownership transfer. -/
-def basicOps (ops : List Op) : Bool := ops.all Op.isBasic
-
-theorem reach_basic {ops : List Op} {s : State} (hb : basicOps ops = true)
-    (h : run init ops = some s) : PInvB s := by
-  refine run_basic ops init s PInvB_init ?_ h
-  intro op hop
-  exact List.all_eq_true.mp hb op hop
 
 /-- A transfer-free trace with two Blocks, a Cycle answer, a release that wakes both waiters and
     both wake-ups; used by the non-vacuity examples below.
@@ -41,12 +68,6 @@ def transferOps : List Op :=
   [.claim 0 1 true true, .claim 1 2 true true, .claim 1 1 true true, .claim 0 2 true true,
    .transfer 0 1 2, .wake 1, .claim 1 1 true true, .releaseSelf 1 1, .claim 2 1 true true,
    .release 1 2 .completed, .wake 0, .wake 2, .claim 2 1 true true, .release 2 1 .completed]
-
-theorem reach_full {ops : List Op} {s : State} (h : run init ops = some s) : GInv s [] :=
-  run_full ops init s GInv_init h
-
-theorem greach_full {ops : List GOp} {s : State} (h : grun init ops = some s) : GInv s [] :=
-  grun_full ops init s GInv_init h
 
 /-! ### W2 — waits are never cyclic (full: every `Op`, including transfers) -/
 
@@ -76,16 +97,6 @@ example : ((grun init [.addEdge 1 1 0, .addEdge 2 1 0, .transferLock 1 0 2 (.thr
     some (none, none, some .completed, some .completed) := by decide
 
 /-! ### W1 — a thread has an outgoing edge iff it occurs in exactly one `qdeps` list (once) -/
-
-theorem w1_of_ginv {s : State} (hg : GInv s []) (t : Nat) :
-    ((s.edges t).isSome ↔ ∃ k, t ∈ s.qdeps k) ∧
-    (∀ k k', t ∈ s.qdeps k → t ∈ s.qdeps k' → k = k') ∧
-    (∀ k, (s.qdeps k).count t ≤ 1) := by
-  refine ⟨⟨fun he => ?_, fun ⟨k, hk⟩ => hg.mem_blocked t k hk⟩, hg.unique t, fun k => ?_⟩
-  · rcases hg.blocked_mem t he with hk | hl
-    · exact hk
-    · simp at hl
-  · exact List.nodup_iff_count.mp (hg.nodup k) t
 
 theorem w1_blocked_iff (ops : List Op) (s : State) (h : run init ops = some s) (t : Nat) :
     ((s.edges t).isSome ↔ ∃ k, t ∈ s.qdeps k) ∧
@@ -119,6 +130,39 @@ example : ((run init (demoOps.take 3)).map fun s =>
     ((s.sync 1).map (·.owner), (s.sync 1).map (·.anyoneWaiting), s.edges 2)) =
     some (some (.thread 0), some true, some 0) := by decide
 
+/-! ### W4 — `transferred` is a forest and `transferred_dependents` is its inverse (= c18_forest) -/
+
+/-- For every op sequence in which each `transfer k → n` satisfies the CLIENT precondition
+    `transferClientOk` (`n ≠ k`, and if `k` has no `transferred` entry then `n`'s lock is not already
+    transitively owned by `k`; `runC` checks it before each step).  The Rust code does not assert this
+    precondition — the engine guarantees it (a lock is only transferred to a cycle head that is still
+    active further up the stack) — and without it the invariant is false, see the example below.  The
+    trace driver evaluates the same predicate on every replayed `transfer_lock`.
+    `Forest`: `transferred k = (t,o) → k ∈ tdeps o`, `k ∈ tdeps o → transferred k = (_,o)`,
+    every `tdeps` list duplicate-free, and no key transitively owns itself. -/
+theorem w4_forest (ops : List Op) (s : State) (h : runC init ops = some s) : Forest s :=
+  (runC_forest ops init s GInv_init Forest_init h).2
+
+/-- The same for graph-operation sequences at lock-hold granularity. -/
+theorem w4_forest_graph (ops : List GOp) (s : State) (h : grunC init ops = some s) : Forest s :=
+  (grunC_forest ops init s GInv_init Forest_init h).2
+
+example : (runC init transferOps).isSome = true := by decide
+example : ((runC init (transferOps.take 9)).map fun s => (s.transferred 1, s.tdeps 2, checkW4 s)) =
+    some (some (1, 2), some [1], true) := by decide
+-- the re-pointing loop at work (graph level): 3 → 1 → 2, then transferring 2 → 3 re-points 1 → (old owner of 2 = 4)
+example : ((grunC init [.transferLock 2 0 4 (.thread 0), .transferLock 1 0 2 (.thread 0),
+    .transferLock 3 0 1 (.thread 0), .transferLock 2 0 3 (.thread 0)]).map fun s =>
+    (s.transferred 1, s.transferred 2, s.transferred 3, checkW4 s)) =
+    some (some (0, 4), some (0, 3), some (0, 1), true) := by decide
+-- the client precondition is necessary: every Rust assert passes (`run` succeeds) on
+-- "t0 claims k1 and k2, transfers k2 → k1, then k1 → k2", and the result is a cycle k1 ↔ k2.
+example : ((run init [.claim 0 1 true true, .claim 0 2 true true, .transfer 0 2 1, .transfer 0 1 2]).map
+    fun s => (s.transferred 1, s.transferred 2, checkW4 s)) =
+    some (some (0, 2), some (0, 1), false) := by decide
+example : (runC init [.claim 0 1 true true, .claim 0 2 true true, .transfer 0 2 1, .transfer 0 1 2]).isSome
+    = false := by decide
+
 /-! ### W5 — every Block is answered by exactly one result (full: every `Op`, including transfers) -/
 
 /-- (a) a thread with an unconsumed result is not blocked; (b) in every step each thread either keeps
@@ -148,26 +192,6 @@ example : ((run init (transferOps.take 4)).map fun s => (status s 0, status s 1)
       some (.blocked, .ready) := by decide
 
 /-! ### W6 — no lost wake-up -/
-
-theorem step_release {s s' : State} {t k : Nat} {r : WaitResult} (hs : step s (.release t k r) = some s') :
-    releaseEntry (touch (touch s t) k) k r = some s' := by
-  simp only [step, stepA] at hs
-  cases hc : (idle (touch (touch s t) k) t && ownedBy (touch (touch s t) k) k t) with
-  | false => simp [hc] at hs
-  | true =>
-    simp only [hc, if_true, Option.map_map, Option.map_eq_some_iff] at hs
-    obtain ⟨s2, hr, rfl⟩ := hs
-    exact hr
-
-theorem step_releaseSelf {s s' : State} {t k : Nat} (hs : step s (.releaseSelf t k) = some s') :
-    releaseSelf (touch (touch s t) k) k = some s' := by
-  simp only [step, stepA] at hs
-  cases hc : (idle (touch (touch s t) k) t && ownedBy (touch (touch s t) k) k t) with
-  | false => simp [hc] at hs
-  | true =>
-    simp only [hc, if_true, Option.map_map, Option.map_eq_some_iff] at hs
-    obtain ⟨s2, hr, rfl⟩ := hs
-    exact hr
 
 -- full statement: for arbitrary `Op` sequences: (a) as below; additionally a key whose sync entry is a
 -- stale `Transferred` (no `transferred` entry) has no dependents; (b) as below, where for a transfer
@@ -222,6 +246,22 @@ example : ((run init (demoOps.take 4)).map fun s => s.qdeps 1) = some [1, 2] ∧
       ((s'.sync 1).isSome, s'.qdeps 1, s'.results 1, s'.results 2)) =
     some (false, [], some .panicked, some .panicked) := by decide
 
+/-- W6, transfer part (holds in every state; `transferLockCore` = `transfer_lock` up to its own final
+    `block_on`): the transfer wakes at most one thread; it receives `Completed`; and it is the thread
+    `nt` that becomes the owner or a thread that `nt` transitively waits for. -/
+theorem w6_transfer_wakes_owner (s s' : State) (q c n nt : Nat) (o : SyncOwner) (kind : TransferKind)
+    (h : transferLockCore s q c n o = some (s', kind, nt)) :
+    (∀ x, status s x = .blocked → status s' x = .ready →
+      s'.results x = some .completed ∧ (x = nt ∨ Path s.edges nt x)) ∧
+    (∀ x y, status s x = .blocked → status s' x = .ready →
+      status s y = .blocked → status s' y = .ready → x = y) :=
+  ⟨(transferLockCore_wakes h).completed, (transferLockCore_wakes h).unique⟩
+
+-- t1 (blocked on k1, owner of the transfer target k2) is the one thread woken by the transfer
+example : ((run init (transferOps.take 4)).bind fun s =>
+    (transferLockCore s 1 0 2 (.thread 1)).map fun r => (r.2.2, status s 1, status r.1 1, r.1.results 1)) =
+    some (1, .blocked, .ready, some .completed) := by decide
+
 /-! ### c19_cycle_reported — a claim that would close a wait cycle is answered `Cycle`, no edge added -/
 
 -- full statement: for arbitrary `Op` sequences, with `other` the resolved owner of `k`; for a
@@ -261,5 +301,115 @@ theorem c19_cycle_reported_partial (s : State) (me other k : Nat) (re blk : Bool
 example : ((run init (demoOps.take 3)).map fun s =>
     ((stepA s (.claim 0 1 false true)).map (·.2), dependsOn s 0 0)) =
     some (some (.claim (.cycle false) false), some true) := by decide
+
+/-! ### `depends_on` terminates and decides reachability in every reachable state -/
+
+/-- The `while let` loop of `Edges::depends_on` always terminates in a reachable state (never `none`),
+    and it answers `true` exactly when `a` is transitively blocked on `b` (or `a = b` and `a` is not
+    blocked — the loop's final `p == to_id`).  Full: every `Op`, including transfers. -/
+theorem c19_depends_on_decides (ops : List Op) (s : State) (h : run init ops = some s) (a b : Nat) :
+    dependsOn s a b ≠ none ∧
+    (dependsOn s a b = some true ↔ (Path s.edges a b ∨ (a = b ∧ s.edges a = none))) := by
+  obtain ⟨hg, hb⟩ := reach_binv h
+  exact ⟨dependsOn_terminates hg hb a b, (dependsOn_complete hg hb a b).1⟩
+
+example : ((run init (transferOps.take 9)).map fun s => (dependsOn s 2 1, dependsOn s 0 1, dependsOn s 1 0)) =
+    some (some true, some true, some false) := by decide
+
+/-- c19_cycle_reported, specification form: in every reachable state (any ops, including transfers),
+    if key `k` is owned by thread `other` and `other` is `me` or transitively waits for `me`, then
+    `try_claim` by `me` answers `Cycle` and changes neither edges, dependents nor results.
+    (`Transferred` owners: see the NOT YET PROVED list.) -/
+theorem c19_cycle_reported (ops : List Op) (s : State) (h : run init ops = some s)
+    (me other k : Nat) (re blk : Bool) (st : SyncState)
+    (hk : s.sync k = some st) (ho : st.owner = .thread other) (hi : idle s me = true)
+    (hdep : other = me ∨ Path s.edges other me) :
+    ∃ s', stepA s (.claim me k re blk) = some (s', .claim (.cycle false) false) ∧
+      s'.edges = s.edges ∧ s'.qdeps = s.qdeps ∧ s'.results = s.results := by
+  apply c19_cycle_reported_partial s me other k re blk st hk ho hi
+  rcases hdep with hd | hd
+  · exact Or.inl hd
+  · exact Or.inr ((c19_depends_on_decides ops s h other me).2.mpr (Or.inl hd))
+
+/-- Conversely a claim never blocks into a cycle: when it answers `Running` and blocks, the owner was
+    not waiting for the caller (this is what keeps W2). -/
+theorem c19_block_only_if_acyclic (ops : List Op) (s : State) (h : run init ops = some s)
+    (me k o : Nat) (re : Bool) (s' : State)
+    (hs : stepA s (.claim me k re true) = some (s', .claim (.running o) true)) :
+    me ≠ o ∧ ¬ Path s.edges o me ∧ s'.edges = upd s.edges me (some o) := by
+  obtain ⟨hg, _⟩ := reach_binv h
+  simp only [stepA] at hs
+  have h0 := GInv_touch k (GInv_touch me hg)
+  have he0 : (touch (touch s me) k).edges = s.edges := rfl
+  generalize touch (touch s me) k = s0 at hs h0 he0
+  cases hi : idle s0 me with
+  | false => simp [hi] at hs
+  | true =>
+    simp only [hi, if_true] at hs
+    cases hc : tryClaim s0 me k re with
+    | none => simp [hc] at hs
+    | some p =>
+      obtain ⟨s1, a⟩ := p
+      simp only [hc] at hs
+      have fr := tryClaim_frame hc
+      cases a with
+      | claimed => simp [finishClaim] at hs
+      | cycle i => simp [finishClaim] at hs
+      | running o' =>
+        simp only [finishClaim, if_true] at hs
+        cases ha : addEdge s1 me k o' with
+        | none => simp [ha] at hs
+        | some s2 =>
+          simp only [ha, Option.some.injEq, Prod.mk.injEq, Answer.claim.injEq, ClaimAnswer.running.injEq] at hs
+          obtain ⟨rfl, ⟨rfl, _⟩⟩ := hs
+          obtain ⟨hne, _, hd, rfl⟩ := addEdge_eq ha
+          have := dependsOnLoop_false _ _ hd
+          rw [fr.only.edges, he0] at this
+          refine ⟨hne, this.1, ?_⟩
+          simp only
+          rw [fr.only.edges, he0]
+
+example : ((run init (demoOps.take 1)).map fun s => (stepA s (.claim 1 1 false true)).map (·.2)) =
+    some (some (.claim (.running 0) true)) := by decide
+
+/-- No internal assert, unwrap or non-terminating loop can fire in a claim of a key that is vacant or
+    owned by a thread: the step is always enabled for an idle thread (any reachable state, any ops). -/
+theorem c19_claim_enabled (ops : List Op) (s : State) (h : run init ops = some s)
+    (t k : Nat) (re blk : Bool) (hi : idle s t = true)
+    (hk : s.sync k = none ∨ ∃ st u, s.sync k = some st ∧ st.owner = .thread u) :
+    (step s (.claim t k re blk)).isSome = true := by
+  obtain ⟨hg, hb⟩ := reach_binv h
+  have hi0 : idle (touch (touch s t) k) t = true := hi
+  simp only [step, stepA, hi0, if_true, Option.isSome_map]
+  rcases hk with hk | ⟨st, u, hk, ho⟩
+  · have hk0 : (touch (touch s t) k).sync k = none := hk
+    simp [tryClaim, hk0, finishClaim]
+  · have hk0 : (touch (touch s t) k).sync k = some st := hk
+    simp only [tryClaim, hk0, ho]
+    have hg1 : GInv (setWaiting (touch (touch s t) k) k st) [] :=
+      GInv.congr (s := s) rfl rfl rfl hg
+    have hb1 : BInv (setWaiting (touch (touch s t) k) k st) := by
+      intro x hx
+      have := hb x hx
+      simp only [setWaiting, touch]; omega
+    have het : (setWaiting (touch (touch s t) k) k st).edges t = none := (idle_iff.mp hi).1
+    generalize setWaiting (touch (touch s t) k) k st = s1 at hg1 hb1 het
+    unfold block
+    by_cases htu : t = u
+    · simp [htu, finishClaim]
+    · simp only [htu, if_false]
+      have hterm := dependsOn_terminates hg1 hb1 u t
+      cases hd : dependsOn s1 u t with
+      | none => exact absurd hd hterm
+      | some b =>
+        cases b with
+        | true => simp [finishClaim]
+        | false =>
+          cases blk with
+          | false => simp [finishClaim]
+          | true => simp [finishClaim, addEdge, htu, het, hd]
+
+example : ((run init (demoOps.take 2)).map fun s => (idle s 2, (step s (.claim 2 1 true true)).isSome)) =
+    some (true, true) := by decide
 
 end SalsaVerif.Props.C19
